@@ -13,7 +13,9 @@ def pool():
     code incl. { 0 } / { -0 }; nested arrays incl. nil inside; HashMaps incl. the same entries in different orders"""
     NAN = ('N', 1)
     sc = [num(0), NEGZERO, num(1), num(-1), num(0.5), num(-0.5), num(2), num(16777215), num(16777216), ('P',), ('Q',), NAN]
-    st = [s(""), s("a"), s("A"), s("ab"), s("aB"), s("AB"), s("a b"), s('a"b'), s("1"), s("true")]
+    st = [s(""), s("a"), s("A"), s("ab"), s("aB"), s("AB"), s("a b"), s('a"b'), s("1"), s("true"),
+          # characters that are NOT letters and differ only in the bit that separates upper from lower case: equal under no comparison
+          s("a[0]"), s("A{0}"), s("a^b"), s("A~B"), s("@x"), s("`X"), s("a\\b"), s("A|B"), s("]"), s("}")]
     co = [code(n) for n in ("{}", "{0}", "{-0}", "{1}", '{"a"}', '{"A"}', "{a}", "{A}", "{x = 1}", "{1 + 1}", "{0; 1}", "{-0; 1}")]
     ar = [arr(), arr(num(0)), arr(NEGZERO), arr(num(1)), arr(num(1), num(2)), arr(num(2), num(1)), arr(NIL), arr(num(1), NIL),
           arr(NIL, num(1)), arr(s("a")), arr(s("A")), arr(arr()), arr(arr(num(1))), arr(arr(num(1)), arr(num(2))), arr(arr(NIL)),
